@@ -84,61 +84,150 @@ def _paths(fn):
     return out
 
 
+def _cache_eval(F, name, tag, extra):
+    """Evaluate BlockCache::<name> on a cache whose tag is `tag` (None / block number) with block-number arguments `extra`,
+    the device's read / write modelled as events that succeed or fail.  -> list of outcomes
+    (device events, result kind, tag afterwards, returned pointer target | error token, block bytes), obligations that failed."""
+    from .absint import Interp, State
+    from .absval import sym_int, is_int, TOP, is_ptr, const, UNIT, agg, arr, is_agg, int_const
+    from .stdmodel import ok, err, slice_view
+    A = F.adts["blockdevice::BlockCache"]
+    names = [f["name"] for f in A["variants"][0]["fields"]]
+    bidx = lambda v: agg("struct", "blockdevice::BlockIdx", 0, [const(v, 32)])
+
+    def dev(kind):
+        def m(I, st, a, ctx):
+            sv = slice_view(I, st, a[1])
+            idx = a[2]
+            ev = (kind, int_const(idx[4][0]) if is_agg(idx) and is_int(idx[4][0]) else None, sv[0] if sv else None)
+            s_ok, s_err = st, st.fork()
+            n = 0
+            for s_, tagv in ((s_ok, "ok"), (s_err, "err")):
+                fr = s_.frames.setdefault(-7, {})
+                fr["log"] = fr.get("log", ()) + (ev + (tagv,),)
+                n = len(fr["log"])
+            return [(ok(UNIT), s_ok), (err(agg("struct", "DeviceErrorToken", 0, [const(n, 8)])), s_err)]
+        return m
+    I = Interp(F, mode="bv", max_paths=400, models={"blockdevice::BlockDevice::read": dev("read"), "blockdevice::BlockDevice::write": dev("write")})
+    st = State()
+    block = agg("struct", "blockdevice::Block", 0, [arr([sym_int(I.vars, "m%d" % k, 8) for k in range(512)])])
+    opt = agg("enum", "core::option::Option", 0, []) if tag is None else agg("enum", "core::option::Option", 1, [bidx(tag)])
+    vals = {"block_device": TOP, "block": arr([block]), "block_idx": opt}
+    cell = I.heap_alloc(st, agg("struct", "blockdevice::BlockCache", 0, [vals.get(n_, TOP) for n_ in names]))      # any further field: unknown
+    fn = F.fn(CACHE + "::" + name)
+    outs = I.run(fn, [cell] + [bidx(x) for x in extra], st, 0)
+    res = []
+    for rv, s2 in outs:
+        self_v = I.read_loc(s2, (cell[1], cell[2], cell[3], None))
+        tagv = self_v[4][names.index("block_idx")]
+        tg = "?" if not is_agg(tagv) or tagv[3] is None else (None if tagv[3] == 0 else int_const(tagv[4][0][4][0]))
+        blk = self_v[4][names.index("block")]
+        bytes_ = None
+        try:
+            bytes_ = [int_const(x) if is_int(x) else None for x in blk[1][0][4][0][1]]
+        except Exception:  # noqa
+            pass
+        payload = None
+        if is_agg(rv) and rv[1] == "enum" and rv[3] is not None:
+            kind = "ok" if rv[3] == 0 else "err"
+            payload = rv[4][0] if rv[4] else None
+        elif is_ptr(rv):
+            kind, payload = "ptr", rv
+        else:
+            kind = "?"
+        if is_ptr(payload):
+            payload = ("ptr", payload[1] == cell[1] and payload[2] == cell[2], tuple(payload[3]))
+        elif is_agg(payload) and payload[2] == "DeviceErrorToken":
+            payload = ("deverr", int_const(payload[4][0]))
+        res.append({"log": s2.frames.get(-7, {}).get("log", ()), "kind": kind, "tag": tg, "payload": payload, "zero": bytes_ is not None and all(b == 0 for b in bytes_), "block_loc": (cell[1], cell[2], (("f", names.index("block")),))})
+    bad = [v["detail"] for k, v in I.obl.items.items() if v["bad"] and "expect" not in str(k)]
+    return res, bad
+
+
+def _is_block0(payload, names_idx=1):
+    return isinstance(payload, tuple) and payload and payload[0] == "ptr" and payload[1] and payload[2][:1] == (("f", names_idx),)
+
+
 @rule("BC1", ["C01", "C04", "C09", "C11"], floor=6,
-      doc="BlockCache::read/read_mut: hit iff tag == Some(arg); miss path stores tag None, then device read of arg into self.block, tag Some(arg) only after the read's Ok; returns &block[0]; device error is returned")
+      doc="BlockCache::read/read_mut, decided by evaluating them (tag None / Some(arg) / Some(other), the device's read succeeding or failing): a hit touches no device and returns &block[0]; a miss issues exactly one device read of arg into self.block, and ends with tag Some(arg) and &block[0] when the read succeeded, with tag None and the device's own error when it failed (never a stale tag over a clobbered buffer)")
 def bc1(F, R):
+    from .absint import Undecided
+    bi = [f["name"] for f in F.adts["blockdevice::BlockCache"]["variants"][0]["fields"]].index("block")
     for name in ("read", "read_mut"):
         fn = F.fn(CACHE + "::" + name)
-        idx = fn.local_name(2) or "_2"
-        allowed = {
-            "hit": [("cmp", "(*self).block_idx", "Some{%s}" % idx, "eq"), ("ret", "Ok(&(*self).block[0])")],
-            "miss-ok": [
-                ("cmp", "(*self).block_idx", "Some{%s}" % idx, "ne"),
-                ("tag", "None"),
-                ("devread", "&(*self).block_device", "&(*self).block", idx),
-                ("try", "read", "Continue"),
-                ("tag", "Some(%s)" % idx),
-                ("ret", "Ok(&(*self).block[0])"),
-            ],
-            "miss-err": [
-                ("cmp", "(*self).block_idx", "Some{%s}" % idx, "ne"),
-                ("tag", "None"),
-                ("devread", "&(*self).block_device", "&(*self).block", idx),
-                ("try", "read", "Break"),
-                ("ret", "residual"),
-            ],
-        }
-        found = set()
-        for evs in _paths(fn):
-            hit = None
-            for k, seq in allowed.items():
-                if evs == seq:
-                    hit = k
-            if hit:
-                found.add(hit)
-                R.ok(fn, "path:" + hit, "event sequence %s" % evs, fn.loc(0))
+        for tag in (7, 9, None):
+            key = "%s:tag=%s" % (name, "same" if tag == 7 else ("other" if tag == 9 else "none"))
+            try:
+                res, bad = _cache_eval(F, name, tag, [7])
+            except Undecided as e:
+                R.bad(fn, key, "cannot evaluate %s: %s" % (name, e), fn.loc(0))
+                continue
+            problems = list(bad[:1])
+            if tag == 7:
+                if not (len(res) == 1 and res[0]["log"] == () and res[0]["kind"] == "ok" and res[0]["tag"] == 7 and _is_block0(res[0]["payload"], bi)):
+                    problems.append("a cache hit must return &block[0] without touching the device; outcomes: %s" % [(r["log"], r["kind"], r["tag"]) for r in res])
             else:
-                R.bad(fn, "path:" + " ".join(e[0] + ":" + e[1] for e in evs), "path violates the cache load protocol: %s" % (evs,), fn.loc(0), trace=[str(e) for e in evs])
-        for k in allowed:
-            if k not in found:
-                R.bad(fn, "missing-path:" + k, "expected protocol path '%s' does not exist" % k, fn.loc(0))
+                oks = [r for r in res if r["kind"] == "ok"]
+                ers = [r for r in res if r["kind"] == "err"]
+                okp = len(oks) == 1 and len(ers) == 1 and len(res) == 2
+                for r in res:
+                    okp = okp and len(r["log"]) == 1 and r["log"][0][0] == "read" and r["log"][0][1] == 7 and r["log"][0][2] == r["block_loc"]
+                if okp:
+                    okp = oks[0]["log"][0][3] == "ok" and oks[0]["tag"] == 7 and _is_block0(oks[0]["payload"], bi)
+                    okp = okp and ers[0]["log"][0][3] == "err" and ers[0]["tag"] is None and ers[0]["payload"] == ("deverr", 1)
+                if not okp:
+                    problems.append("a miss must read block arg once into self.block; Ok -> tag Some(arg), &block[0]; Err -> tag None, the device's error; outcomes: %s" % [(r["log"], r["kind"], r["tag"], r["payload"]) for r in res])
+            R.require(not problems, fn, key, "; ".join(str(x) for x in problems)[:600], fn.loc(0), okdetail="%s with tag %s behaves as specified" % (name, tag))
+
+
+def _zero_loop_blank(fn):
+    """True when blank_mut is: tag := Some(arg); for b in self.block[0](.contents).iter_mut() { *b = 0 }; return &mut block[0]
+    - with no device call and no other store into the block; else a string saying what differs."""
+    from .mir import strip_refs
+    from .dataflow import var_def_terms
+    loops = fn.loops()
+    if len(loops) != 1:
+        return "expected one clearing loop, found %d" % len(loops)
+    h, body, backs = loops[0]
+    nx = [(b, t) for b, t in fn.calls() if b in body and (callee_of(t) or "").endswith("Iterator::next")]
+    if len(nx) != 1 or "IterMut<'_, u8>" not in nx[0][1].get("callee_full", "").replace("core::slice::iter::", "").replace("core::slice::", "") and "IterMut" not in nx[0][1].get("callee_full", ""):
+        return "the loop is not driven by a slice iter_mut()"
+    itv = strip_refs(fn.term_of_operand(nx[0][1]["args"][0], nx[0][0]))
+    defs = var_def_terms(fn, itv[1]) if itv[0] == "var" else [itv]
+    src = tstr(defs[0]) if len(defs) == 1 else ""
+    if not ("iter_mut(" in src and "block" in src and "Range" not in src and "index" not in src.replace("index_mut(&(*self).block", "")):
+        return "the iterator does not run over the whole of block[0]: %s" % src[:80]
+    stores = [(b, i, s) for b, i, s in fn.stmts() if s["k"] == "Assign" and s["p"]["proj"] and any(e[0] == "deref" for e in s["p"]["proj"]) and b in body]
+    if len(stores) != 1 or fn.term_of_rvalue(stores[0][2]["rv"], stores[0][0])[:2] != ("c", 0):
+        return "the loop body does not just store 0 through the item"
+    if any(path_matches(callee_of(t) or "", "BlockDevice::read") or path_matches(callee_of(t) or "", "BlockDevice::write") for b, t in fn.calls()):
+        return "device traffic in blank_mut"
+    tags = [(b, fn.term_of_rvalue(s["rv"], b)) for b, i, s in fn.stmts() if s["k"] == "Assign" and _self_field(fn, s["p"], "block_idx")]
+    if len(tags) != 1 or not (tags[0][1][0] == "agg" and (tags[0][1][2] or "").endswith("Option::Some") and strip_refs(tags[0][1][3][0])[:2] == ("arg", 2)):
+        return "the tag is not set to Some(arg) exactly once"
+    rets = [fn.term_of_rvalue(d[3], d[1]) if d[0] == "assign" else fn.call_term(d[2], d[1]) for d in fn.defs().get(0, [])]
+    if len(rets) != 1 or "block" not in tstr(rets[0]):
+        return "does not return the block"
+    return True
 
 
 @rule("BC2", ["C01", "C04"], floor=1,
-      doc="BlockCache::blank_mut: stores tag Some(arg), zero-fills block[0], returns &mut block[0] on its only path")
+      doc="BlockCache::blank_mut (evaluated): no device traffic, tag Some(arg), all 512 bytes of block[0] zero, returns &mut block[0]")
 def bc2(F, R):
+    from .absint import Undecided
     fn = F.fn(CACHE + "::blank_mut")
-    idx = fn.local_name(2) or "_2"
-    want = [("tag", "Some(%s)" % idx), ("fill", "&(*deref_mut(&(*self).block[0]))", "0"), ("ret", "&(*self).block[0]")]
-    paths = _paths(fn)
-    for evs in paths:
-        # order of tag store and fill is irrelevant (no device call in between)
-        if sorted(evs[:2]) == sorted(want[:2]) and evs[2:] == want[2:]:
-            R.ok(fn, "path", "event sequence %s" % evs, fn.loc(0))
-        else:
-            R.bad(fn, "path:" + " ".join(e[0] + ":" + e[1] for e in evs), "blank_mut must tag Some(arg), zero block[0] and return it; got %s" % (evs,), fn.loc(0))
-    if not paths:
-        R.bad(fn, "nopath", "no return path", fn.loc(0))
+    bi = [f["name"] for f in F.adts["blockdevice::BlockCache"]["variants"][0]["fields"]].index("block")
+    for tag in (9, None):
+        try:
+            res, bad = _cache_eval(F, "blank_mut", tag, [7])
+        except Undecided as e:
+            # a byte-by-byte clearing loop is beyond the evaluation (it would be unrolled per element): recognise the idiom
+            # `for b in <all of block[0]>.iter_mut() { *b = 0 }` and check the rest of the function around it
+            okl = _zero_loop_blank(fn)
+            R.require(okl is True, fn, "path:tag=%s" % tag, "cannot evaluate blank_mut (%s) and it is not the plain clear-every-byte loop: %s" % (e, okl), fn.loc(0))
+            continue
+        ok = len(res) == 1 and res[0]["log"] == () and res[0]["tag"] == 7 and res[0]["zero"] and res[0]["kind"] == "ptr" and _is_block0(res[0]["payload"], bi) and not bad
+        R.require(ok, fn, "path:tag=%s" % tag, "blank_mut must tag Some(arg), zero all of block[0] and return it without device traffic; outcomes %s %s" % ([(r["log"], r["kind"], r["tag"], r["zero"]) for r in res], bad[:1]), fn.loc(0))
 
 
 @rule("BC3", ["C01", "C09"], floor=2,
@@ -166,42 +255,32 @@ def bc3(F, R):
 
 
 @rule("BC4", ["C04", "C10", "C16"], floor=3,
-      doc="write_back writes self.block to the tagged index; write_back_with_duplicate writes the tagged index first and the duplicate index only after that write's Ok; every device error is returned")
+      doc="write_back / write_back_with_duplicate, evaluated with the device's writes succeeding or failing: write_back writes self.block to the tagged index once and returns the device's result; write_back_with_duplicate writes the tagged index first, the duplicate only after that write's Ok, and returns the first error; the tag is left alone")
 def bc4(F, R):
+    from .absint import Undecided
     fn = F.fn(CACHE + "::write_back")
-    blk = "&(*self).block"
-    dev = "&(*self).block_device"
-    tagidx = "expect((*self).block_idx, &(*write_back with no read))"
-    for evs in _paths(fn):
-        ok = len(evs) == 1 and evs[0][0] == "devwrite->ret" and evs[0][1] == dev and evs[0][2] == blk and evs[0][3].startswith("expect((*self).block_idx")
-        R.require(ok, fn, "path", "write_back path: %s" % (evs,), fn.loc(0))
+    try:
+        res, bad = _cache_eval(F, "write_back", 7, [])
+        ok = len(res) == 2 and all(len(r["log"]) == 1 and r["log"][0][:2] == ("write", 7) and r["log"][0][2] == r["block_loc"] and r["tag"] == 7 for r in res)
+        ok = ok and sorted((r["log"][0][3], r["kind"]) for r in res) == [("err", "err"), ("ok", "ok")] and all(r["payload"] == ("deverr", 1) for r in res if r["kind"] == "err")
+        R.require(ok, fn, "path", "write_back must write self.block to the tagged block once and return the device's result; outcomes %s" % [(r["log"], r["kind"], r["tag"]) for r in res], fn.loc(0))
+    except Undecided as e:
+        R.bad(fn, "path", "cannot evaluate write_back: %s" % e, fn.loc(0))
     fn = F.fn(CACHE + "::write_back_with_duplicate")
-    dup = fn.local_name(2) or "_2"
-    found = set()
-    for evs in _paths(fn):
-        e = [(x[0],) + tuple(y if not y.startswith("expect((*self).block_idx") else "TAG" for y in x[1:]) for x in evs]
-        w1 = ("devwrite", dev, blk, "TAG")
-        w2 = ("devwrite", dev, blk, dup)
-        if e == [w1, ("try", "write", "Break"), ("ret", "residual")]:
-            found.add("err1")
-        elif e == [w1, ("try", "write", "Continue"), w2, ("try", "write", "Break"), ("ret", "residual")]:
-            found.add("err2")
-        elif e == [w1, ("try", "write", "Continue"), w2, ("try", "write", "Continue"), ("ret", "Ok(Tuple{})")]:
-            found.add("ok")
-        elif e == [w1, ("try", "write", "Continue"), ("devwrite->ret",) + w2[1:]]:
-            # the duplicate write's own Result is the function's result: its error is returned, its Ok is the Ok
-            found.add("ok")
-            found.add("err2")
-        else:
-            R.bad(fn, "path:" + " ".join(x[0] for x in e), "path violates primary-then-duplicate protocol: %s" % (evs,), fn.loc(0))
-            continue
-        R.ok(fn, "path", str(evs), fn.loc(0))
-    for k in ("err1", "err2", "ok"):
-        if k not in found:
-            R.bad(fn, "missing-path:" + k, "expected path %s missing" % k, fn.loc(0))
+    try:
+        res, bad = _cache_eval(F, "write_back_with_duplicate", 7, [3])
+        want = {(("write", 7, "ok"), ("write", 3, "ok")): "ok", (("write", 7, "ok"), ("write", 3, "err")): "err", (("write", 7, "err"),): "err"}
+        got = {tuple((e[0], e[1], e[3]) for e in r["log"]): r["kind"] for r in res}
+        ok = got == want and len(res) == 3 and all(all(e[2] == r["block_loc"] for e in r["log"]) and r["tag"] == 7 for r in res)
+        ok = ok and all(r["payload"] == ("deverr", len(r["log"])) for r in res if r["kind"] == "err")
+        R.require(ok, fn, "path", "write_back_with_duplicate must write the tagged block, then (only after Ok) the duplicate, and return the first error; outcomes %s" % sorted(got.items()), fn.loc(0))
+        for k in ("err1", "err2", "ok"):
+            R.ok(fn, "path:" + k, "outcome present")
+    except Undecided as e:
+        R.bad(fn, "path", "cannot evaluate write_back_with_duplicate: %s" % e, fn.loc(0))
 
 
-@rule("BC5", ["C01", "C04", "C09"], floor=7,
+@rule("BC5", ["C01", "C04", "C09"], floor=3,
       doc="who-may-call: <D as BlockDevice>::read/write are called only inside impl BlockCache; BlockCache::block_device only from VolumeManager::device; the cache's fields are touched only by impl BlockCache")
 def bc5(F, R):
     for f in F.fns:
